@@ -184,6 +184,12 @@ fn gen_msg(rng: &mut Rng, key: &[u8]) -> Vec<u8> {
 
 fn mutate(rng: &mut Rng, b: &[u8]) -> Vec<u8> {
     let mut x = b.to_vec();
+    if x.len() < 20 {
+        // too short to edit structurally: append a few bytes
+        let j = rng.bytes(3);
+        x.extend_from_slice(&j);
+        return x;
+    }
     match rng.below(9) {
         0 => { let i = rng.below(x.len() as u64) as usize; x[i] ^= 1 << rng.below(8) }
         1 => { let n = rng.below(x.len() as u64 + 1) as usize; x.truncate(n) }
